@@ -31,6 +31,7 @@ pub struct Mon {
     pub dups: usize,
     pub rebitfield: bool,
     pub have_sent: bool,
+    pub asked_us: bool,
 }
 
 impl Tiling {
@@ -77,6 +78,10 @@ impl Scenario for Tiling {
             if !mon.have_sent {
                 e.push("H".to_string());
             }
+            // the peer asks US for a block in the middle of its upload to us (a piece we lack: refused)
+            if !mon.asked_us {
+                e.push("Q".to_string());
+            }
         }
         if !mon.answered.is_empty() && mon.dups < 2 {
             e.push("D".to_string());
@@ -90,6 +95,9 @@ impl Scenario for Tiling {
         }
         if sym == "H" {
             return vec![Ev::Feed(0, refwire::encode(&Msg::Have(1)))];
+        }
+        if sym == "Q" {
+            return vec![Ev::Feed(0, refwire::encode(&Msg::Request(2, 0, 1)))];
         }
         let r = if sym == "D" { *mon.answered.last().unwrap() } else { mon.outstanding[sym[1..].parse::<usize>().unwrap()] };
         vec![Ev::Feed(0, refwire::encode(&Msg::Piece(r.0, r.1, block_bytes(&w.t, &r))))]
@@ -114,6 +122,8 @@ impl Scenario for Tiling {
                 mon.rebitfield = true;
             } else if sym == "H" {
                 mon.have_sent = true;
+            } else if sym == "Q" {
+                mon.asked_us = true;
             } else {
                 let k: usize = sym[1..].parse().unwrap();
                 let r = mon.outstanding.remove(k);
@@ -187,7 +197,7 @@ impl Scenario for Tiling {
         None
     }
     fn key(&self, w: &World, mon: &Mon) -> String {
-        format!("{} out={:?} ans={} dups={} b={} h={}", w.default_key(), mon.outstanding, mon.answered.len(), mon.dups, mon.rebitfield, mon.have_sent)
+        format!("{} out={:?} ans={} dups={} b={} h={} q={}", w.default_key(), mon.outstanding, mon.answered.len(), mon.dups, mon.rebitfield, mon.have_sent, mon.asked_us)
     }
 }
 
@@ -464,7 +474,7 @@ pub fn run(ctx: &Ctx) -> Outcome {
     explore::stats_outcome(&total, &mut o);
     o.set("block_lists_enumerated", json!(enumerated));
     o.set("scenarios", Value::Array(per));
-    o.set("rule", json!("E-ENUM: PieceRx::left(n) for every n in 1..=81921. E-SYS: per piece length in [1,16383,16384,16385,32768,32769,49153] a 2-piece torrent (second piece = short last piece of 5 bytes); events A<k> = correct answer to the k-th outstanding request, D = duplicate of the last answered block; BFS over all histories until both pieces are complete (depth <= 14); a state = canonical snapshot of manager + handler + files + outstanding set. Mind-changing peer (tiling-<len>-mind12): 12 pieces (outside end game), the peer advertises piece 0 only and may, while it is being fetched, send the same Bitfield again (B) and Have(1) (H): requests must not name another piece while the current one is only partly requested. Two-connection scenarios (tiling2-<len>): 3 pieces of <len> bytes, two connections (end game, so both may be asked for the same piece and the slower one is cancelled and re-assigned), events U<k> unchoke, V<k> one repeated unchoke, X<k> loss of a connection, A<k>:<j> correct answer to the j-th outstanding request of connection k, every chooser tie-break; the same tiling / follow-up / completion obligations per assignment, plus: no connection waits for a block already delivered, requested blocks are tracked."));
+    o.set("rule", json!("E-ENUM: PieceRx::left(n) for every n in 1..=81921. E-SYS: per piece length in [1,16383,16384,16385,32768,32769,49153] a 2-piece torrent (second piece = short last piece of 5 bytes); events A<k> = correct answer to the k-th outstanding request, D = duplicate of the last answered block; BFS over all histories until both pieces are complete (depth <= 14); a state = canonical snapshot of manager + handler + files + outstanding set. Mind-changing peer (tiling-<len>-mind12): 12 pieces (outside end game), the peer advertises piece 0 only and may, while it is being fetched, send the same Bitfield again (B), Have(1) (H) and a Request of its own for a piece the client lacks (Q, refused): requests must not name another piece while the current one is only partly requested. Two-connection scenarios (tiling2-<len>): 3 pieces of <len> bytes, two connections (end game, so both may be asked for the same piece and the slower one is cancelled and re-assigned), events U<k> unchoke, V<k> one repeated unchoke, X<k> loss of a connection, A<k>:<j> correct answer to the j-th outstanding request of connection k, every chooser tie-break; the same tiling / follow-up / completion obligations per assignment, plus: no connection waits for a block already delivered, requested blocks are tracked."));
     o.assume("one connection, honest payloads (corrupt ones are C01's subject), tie-breaks of the piece chooser fixed to the identity shuffle");
     o
 }
